@@ -23,11 +23,11 @@ import (
 // ---- C16: prune and verify remove exactly what they should ----
 
 type c16File struct {
-	rel      string // path relative to the store
-	kind     string // chunk | chunk-other-format | invalid-chunk | tmp | junk | misplaced
-	id       string // hex id for chunk-like files
-	valid    bool
-	ownFmt   bool
+	rel        string // path relative to the store
+	kind       string // chunk | chunk-other-format | invalid-chunk | tmp | junk | misplaced
+	id         string // hex id for chunk-like files
+	valid      bool
+	ownFmt     bool
 	referenced bool
 }
 
@@ -326,10 +326,10 @@ func runC16(c *fw.Case) {
 				ext = ".cacnk"
 			}
 			cands := []string{"README", filepath.Join(id[:4], "notes.txt"), filepath.Join("zz", id[:10]), id[:64] + ".bak",
-				filepath.Join("0000", id+ext),                      // wrong directory
+				filepath.Join("0000", id+ext),                                   // wrong directory
 				filepath.Join(strings.ToUpper(id[:4]), strings.ToUpper(id)+ext), // upper-case hex
-				id + ext,                                            // directly in the base directory
-				filepath.Join(id[:4], "sub", id+ext),               // nested deeper
+				id + ext,                             // directly in the base directory
+				filepath.Join(id[:4], "sub", id+ext), // nested deeper
 			}
 			k := r.IntN(len(cands))
 			rel := cands[k]
